@@ -12,7 +12,7 @@ ASSUMPTIONS = ["before/after comparison uses only the library's accessors and wi
 NSHARDS = {"quick": 32, "thorough": 64}
 BUDGET_S = {"quick": 200, "thorough": 1800}
 MIN_HITS = {
-    'quick': {"tx": 1500, "coinbase_tx": 100, "ext_satoshis": 800, "ext_locking": 800, "sat_2^64-1": 50, "txin": 1500, "conditional": 300, "empty_pushdata": 100},
+    'quick': {"tx": 800, "coinbase_tx": 137, "ext_satoshis": 1073, "ext_locking": 957, "sat_2^64-1": 74, "txin": 1908, "conditional": 1217, "empty_pushdata": 466},
     'thorough': {"tx": 115200, "coinbase_tx": 17504, "ext_satoshis": 154718, "ext_locking": 135599, "sat_2^64-1": 10357, "txin": 276223, "conditional": 181473, "empty_pushdata": 65158},
 }
 SATS = [0, 1, 2**53, 2**53 + 1, 2**63 - 1, 2**63, 2**64 - 2, 2**64 - 1, 0x0102030405060708]
